@@ -12,6 +12,10 @@ cases = None
 if "--cases" in args:
     cases = args[args.index("--cases") + 1]
     del args[args.index("--cases"):args.index("--cases") + 2]
+match = None
+if "--match" in args:
+    match = args[args.index("--match") + 1].split(",")
+    del args[args.index("--match"):args.index("--match") + 2]
 props = [a for a in args if not a.startswith("--")]
 jobs = []
 only_seeded = "--only-seeded" in args
@@ -25,6 +29,8 @@ if seeded:
         jobs.append((meta["property"], os.path.join(os.path.dirname(m), "patch.diff")))
 if props:
     jobs = [j for j in jobs if j[0] in props]
+if match:
+    jobs = [j for j in jobs if any(m in j[1] for m in match)]
 scratch = "/tmp/mutant-%d" % os.getpid()
 results = []
 for prop, patch in jobs:
